@@ -21,14 +21,6 @@ structure Client where
   calls : List (Option Pending) := []        -- k-th call issued; `none` once answered
   deriving Repr
 
-inductive COp where
-  | addMatch (cb : Cb) (a : RuleArgs)
-  | delMatch (id : Nat)
-  | replyOk (k : Nat)
-  | replyErr (k : Nat)
-  | signal (m : Msg)
-  deriving Repr
-
 inductive CObs where
   | sentAdd (text : Str)          -- AddMatch written to the transport
   | sentRemove (text : Str)       -- RemoveMatch written to the transport
